@@ -213,6 +213,7 @@ class World:
         self.umat_wrap = umat_wrap
         for k, it in enumerate(doc["items"]):
             self.items.append(self._build_item(k, it))
+        self.top = None
         self.boundaries, self.ramp_bc = self._build_bc(doc.get("bc", {"case": "none"}))
         self.steps = []
         for s in doc.get("steps", []):
@@ -335,6 +336,17 @@ class World:
         )
         holder["item"] = item
         return item
+
+    def toplevel_field(self):
+        """Multi-body workflow: a separate top-level container (a copy) carries the boundaries
+        and is handed over as x0; the items keep their own container."""
+        top = self.field.copy()
+        for b_ in self.boundaries.values():
+            k_ = [q for q, f_ in enumerate(self.field.fields) if f_ is b_.field]
+            if k_:
+                b_.field = top.fields[k_[0]]
+        self.top = top
+        return top
 
     def _load_vector(self, v):
         """Body-load vector in the convention of the field kind (an axisymmetric value space has
@@ -610,6 +622,8 @@ def expected_prescribed(world, step_index):
     out = {}
     for b in world.steps[step_index].boundaries.values():
         k = [i for i, f in enumerate(fields) if f is b.field]
+        if not k and getattr(world, "top", None) is not None:
+            k = [i for i, f in enumerate(world.top.fields) if f is b.field]
         if len(k) != 1:
             raise AssertionError("boundary field not in container")
         start = int(starts[k[0]])
